@@ -50,6 +50,18 @@ inductive VerifyMT | same | unstated | other
 inductive VerifyMD | nothing | all | wrong
   deriving DecidableEq, Repr, FromJson, ToJson
 
+/-- what an envelope-generator plugin does to the payload it is given before it signs it -/
+inductive Tamper
+  | faithful          -- signs the bytes it was given
+  | reserialised      -- same JSON value, other member order and white space
+  | dropAnnotation    -- the first annotation (by key) is missing
+  | addAnnotation     -- an annotation of its own is appended (the plugin contract allows that)
+  | changeAnnotation  -- the first annotation has another value
+  | changeMediaType
+  | changeSize
+  | addUnknownField   -- a member the descriptor type does not have
+  deriving DecidableEq, Repr, FromJson, ToJson
+
 /-- how the key behind the signer object was selected for this call -/
 inductive KeyVia
   | fixed          -- the signer object is bound to the key (local signers)
@@ -139,6 +151,9 @@ structure Input where
   exactIdentity : Bool        -- trusted identity is the exact subject (else the wildcard); both trust the signer
   byTag : Bool                -- oci: SignOCI is given a tag reference (else a digest reference); both resolve to `desc`
   history : History           -- earlier calls on the shared signer / verifier objects (must not matter)
+  tamper : Tamper             -- envelope plugin only: what the plugin does to the payload
+  envelopeLastByte : Option Nat  -- blob: the harness signed until the envelope ended in this byte (must not matter)
+  trailingNewline : Bool      -- blob, JWS: a line break is appended to the envelope before verification (must not matter)
   deriving Repr, FromJson, ToJson
 
 structure Obs where
@@ -352,6 +367,37 @@ def headerAlg (s : SignerKind) (k : KeySpec) (ks : String × Nat) : Option Strin
   | .pluginSignature => coreSigAlg ks        -- from pluginPrimitiveSigner.KeySpec()
   | _ => coreSigAlg k.core                   -- from the signing certificate
 
+def pluginAddedKey : String := "c07.plugin.added"
+def pluginAddedValue : String := "x"
+
+/-- a value that differs from `v` -/
+def otherThan (v a b : String) : String := if v = a then b else a
+
+/-- the payload an envelope plugin signs instead of the one it was given -/
+def tamperPayload (t : Tamper) (p : DescObs) : DescObs :=
+  match t with
+  | .faithful | .reserialised => p
+  | .dropAnnotation =>
+    match p.annotations with
+    | [] => p
+    | a :: _ => { p with annotations := p.annotations.filter (fun x => x.k != a.k) }
+  | .addAnnotation => { p with annotations := kvInsert pluginAddedKey pluginAddedValue p.annotations }
+  | .changeAnnotation =>
+    match p.annotations with
+    | [] => p
+    | a :: _ =>
+      { p with annotations := p.annotations.map (fun x =>
+          if x.k = a.k then ⟨x.k, otherThan x.v "c07-changed" "c07-changed-2"⟩ else x) }
+  | .changeMediaType =>
+    { p with mediaType := otherThan p.mediaType "application/x-c07-changed" "application/x-c07-changed-2" }
+  | .changeSize => { p with size := p.size + 1 }
+  | .addUnknownField => { p with extraKeys := p.extraKeys ++ ["c07Unknown"] }
+
+/-- signer/plugin.go `areUnknownAttributesAdded`: members of the signed payload other than those
+the check removes (the four payload fields are not in `extraKeys`) -/
+def unknownAttributesAdded (signed : DescObs) : Bool :=
+  signed.extraKeys.any (fun k => !c07PluginPayloadTolerated.contains k)
+
 /-- signer/plugin.go `isPayloadDescriptorValid` on the envelope a plugin returned -/
 def payloadDescriptorValid (orig : FullDesc) (signed : DescObs) : Bool :=
   orig.mediaType == signed.mediaType && orig.digest == signed.digest && orig.size == signed.size &&
@@ -370,7 +416,9 @@ def protectedAttrs (alg : String) (payload : DescObs) (envelopePlugin : Bool) (d
 def signDesc (C : Crypto) (key : C.Key) (i : Input) (ks : String × Nat) (nowNs : Int) (d : FullDesc) :
     Option (Envelope C) :=
   let envelopePlugin := i.signer == .pluginEnvelope
-  let payload := payloadOf (if envelopePlugin then c07EnvelopePluginSanitizes else c07GenericSignSanitizes) d
+  let given := payloadOf (if envelopePlugin then c07EnvelopePluginSanitizes else c07GenericSignSanitizes) d
+  -- an envelope plugin signs what it makes of the payload it is given
+  let payload := if envelopePlugin then tamperPayload i.tamper given else given
   match headerAlg i.signer i.keySpec ks, primitiveHash i.signer i.keySpec ks with
   | some alg, some h =>
     let attrs := protectedAttrs alg payload envelopePlugin i.durationNs nowNs
@@ -380,6 +428,7 @@ def signDesc (C : Crypto) (key : C.Key) (i : Input) (ks : String × Nat) (nowNs 
     if !e.integrity then none
     else if e.attrs.payloadType != payloadTypeV1 then none
     else if envelopePlugin && !payloadDescriptorValid d e.attrs.payload then none
+    else if envelopePlugin && unknownAttributesAdded e.attrs.payload then none
     else some e
   | _, _ => none
 
@@ -588,15 +637,9 @@ def legalMetadata (annots : List KV) : List KV → Bool
   | [] => true
   | m :: ms => !specReserved m.k && !kvHas m.k annots && !ms.any (fun x => x.k == m.k) && legalMetadata annots ms
 
-/-- the arguments of the signing API are legal -/
-def legal (i : Input) : Bool :=
-  decide (0 ≤ i.durationNs) && decide (i.durationNs % 1000000000 = 0) &&
-  (match i.kind with
-   | .oci => legalMetadata i.desc.annotations i.metadata
-   | .blob => i.contentMediaType != "" && i.mediaTypeValid && legalMetadata [] i.metadata)
-
-/-- the descriptor reduced to media type, digest, size and annotations, user metadata included -/
-def expectedPayload (i : Input) : DescObs :=
+/-- the descriptor reduced to media type, digest, size and annotations, user metadata included:
+what the library asks its signer to sign -/
+def requestedPayload (i : Input) : DescObs :=
   match i.kind with
   | .oci =>
     { mediaType := i.desc.mediaType, digest := i.desc.digest, size := i.desc.size,
@@ -604,6 +647,38 @@ def expectedPayload (i : Input) : DescObs :=
   | .blob =>
     { mediaType := i.contentMediaType, digest := i.blob.specDigest i.keySpec, size := i.blob.size,
       annotations := mergeKV [] i.metadata, extraKeys := [] }
+
+/-- only an envelope-generator plugin gets to see (and re-make) the payload -/
+def effectiveTamper (i : Input) : Tamper := if i.signer == .pluginEnvelope then i.tamper else .faithful
+
+/-- the plugin is not faithful to the requested payload: it lost or changed something the
+library asked it to sign, or added a member that is not a descriptor field. Appending an
+annotation of its own is allowed by the plugin contract unless it overrides a requested one. -/
+def unfaithful (t : Tamper) (requested : DescObs) : Bool :=
+  match t with
+  | .faithful | .reserialised => false
+  | .dropAnnotation | .changeAnnotation => !requested.annotations.isEmpty
+  | .changeMediaType | .changeSize | .addUnknownField => true
+  | .addAnnotation =>
+    match kvLookup pluginAddedKey requested.annotations with
+    | none => false
+    | some v => v != pluginAddedValue
+
+/-- the arguments of the signing API are legal and its signer is faithful -/
+def legal (i : Input) : Bool :=
+  decide (0 ≤ i.durationNs) && decide (i.durationNs % 1000000000 = 0) &&
+  (match i.kind with
+   | .oci => legalMetadata i.desc.annotations i.metadata
+   | .blob => i.contentMediaType != "" && i.mediaTypeValid && legalMetadata [] i.metadata) &&
+  !unfaithful (effectiveTamper i) (requestedPayload i)
+
+/-- what verification must report: the requested payload, plus the annotation a plugin was
+allowed to append -/
+def expectedPayload (i : Input) : DescObs :=
+  if effectiveTamper i = .addAnnotation then
+    { requestedPayload i with
+      annotations := kvInsert pluginAddedKey pluginAddedValue (requestedPayload i).annotations }
+  else requestedPayload i
 
 /-- the verification call asks for what was signed -/
 def consistentVerify (i : Input) : Bool :=
